@@ -349,16 +349,18 @@ def r11_calibration_numeric(ctx, R='C09.R11'):
   weights = NdArr((2, 3), [5, -7, 2, 0, 9, -1])
 
   def model():
-    names = ['x', 'w', 'h', 'y']
-    tensors = [Obj('x:TensorT', {'name': n.encode(), 'buffer': 1 if n == 'w' else 0, 'type': 0, 'shape': [2, 3] if n == 'w' else [1, 2]}) for n in names]
+    names = ['x', 'w', 'h', 'y', 'xi', 'perm', 'yi']
+    tensors = [Obj('x:TensorT', {'name': n.encode(), 'buffer': 1 if n == 'w' else (2 if n == 'perm' else 0), 'type': 2 if n in ('xi', 'perm', 'yi') else 0, 'shape': [2, 3] if n == 'w' else [1, 2]}) for n in names]
     ops = [Obj('x:OperatorT', {'label': 'fc', 'opcodeIndex': 0, 'inputs': [0, 1], 'outputs': [2], 'builtinOptions': None}),
-           Obj('x:OperatorT', {'label': 'fc2', 'opcodeIndex': 0, 'inputs': [2, 1], 'outputs': [3], 'builtinOptions': None})]   # h is an output of fc AND an input of fc2
-    sg = Obj('x:SubGraphT', {'tensors': tensors, 'operators': ops, 'inputs': [0], 'outputs': [3], 'name': b'main'})
-    return Obj('x:ModelT', {'subgraphs': [sg], 'buffers': [Obj('x:BufferT', {'data': None}), Obj('x:BufferT', {'data': 'W'})],
-                            'operatorCodes': [Obj('x:OperatorCodeT', {'builtinCode': code('FULLY_CONNECTED')})]})
+           Obj('x:OperatorT', {'label': 'fc2', 'opcodeIndex': 0, 'inputs': [2, 1], 'outputs': [3], 'builtinOptions': None}),   # h is an output of fc AND an input of fc2
+           Obj('x:OperatorT', {'label': 'tr', 'opcodeIndex': 1, 'inputs': [4, 5], 'outputs': [6], 'builtinOptions': None})]     # an integer-typed runtime path (int32 TRANSPOSE)
+    sg = Obj('x:SubGraphT', {'tensors': tensors, 'operators': ops, 'inputs': [0, 4], 'outputs': [3, 6], 'name': b'main'})
+    return Obj('x:ModelT', {'subgraphs': [sg], 'buffers': [Obj('x:BufferT', {'data': None}), Obj('x:BufferT', {'data': 'W'}), Obj('x:BufferT', {'data': 'PERM'})],
+                            'operatorCodes': [Obj('x:OperatorCodeT', {'builtinCode': code('FULLY_CONNECTED')}), Obj('x:OperatorCodeT', {'builtinCode': code('TRANSPOSE')})]})
 
   def sample(k):   # contents of the runtime tensors for sample k: distinct ranges per tensor and sample
-    return {'x': NdArr((1, 2), [k, -2 * k]), 'h': NdArr((1, 2), [10 - 3 * k, k * k]), 'y': NdArr((1, 2), [-k - 1, 4 - k])}
+    return {'x': NdArr((1, 2), [k, -2 * k], 'f'), 'h': NdArr((1, 2), [10 - 3 * k, k * k], 'f'), 'y': NdArr((1, 2), [-k - 1, 4 - k], 'f'),
+            'xi': NdArr((1, 2), [3 * k, -k], 'i'), 'yi': NdArr((1, 2), [7 - k, 2 * k], 'i')}
   current = {}
 
   def lookup(alg, op, what):
@@ -378,7 +380,7 @@ def r11_calibration_numeric(ctx, R='C09.R11'):
       'tfl_interpreter_utils.invoke_interpreter_signature': invoke,
       'tfl_interpreter_utils.get_signature_main_subgraph_index': lambda a, k: 0,
       'tfl_interpreter_utils.get_tensor_name_to_content_map': lambda a, k: dict(current),
-      'tfl_flatbuffer_utils.get_tensor_data': lambda a, k: (weights if a[0].fields.get('buffer') == 1 else None),
+      'tfl_flatbuffer_utils.get_tensor_data': lambda a, k: (weights if a[0].fields.get('buffer') == 1 else (NdArr((2,), [1, 0], 'i') if a[0].fields.get('buffer') == 2 else None)),
   }
   store = {'.*': [c11._recipe('.*', OP['ALL_SUPPORTED'], MM, srq)]}  # pylint: disable=protected-access
 
@@ -398,7 +400,7 @@ def r11_calibration_numeric(ctx, R='C09.R11'):
 
   def expected(ks):
     out = {}
-    for name in ('x', 'h', 'y'):
+    for name in ('x', 'h', 'y', 'xi', 'yi'):
       mn = mx = None
       for k in ks:
         d = sample(k)[name].data
@@ -440,10 +442,10 @@ def r11_calibration_numeric(ctx, R='C09.R11'):
   ok3, _ = run(it, c, [3, 1, 2, 4])
   if ok1 and ok2 and ok3:
     qb, qc = b.fields['_model_qsvs'], c.fields['_model_qsvs']
-    same = set(qb) == set(qc) and all(abs(num(qb[n][s]) - num(qc[n][s])) <= fractions.Fraction(1, 10 ** 9) for n in ('x', 'h', 'y') for s in ('min', 'max'))
+    same = set(qb) == set(qc) and all(abs(num(qb[n][s]) - num(qc[n][s])) <= fractions.Fraction(1, 10 ** 9) for n in ('x', 'h', 'y', 'xi', 'yi') for s in ('min', 'max'))
     ctx.check(R, same, cal.node, cal, 'D1=[3,1] then D2=[2,4] from the returned result vs one pass over [3,1,2,4]',
-              f'resumed calibration gives {({n: (float(num(qb[n]["min"])), float(num(qb[n]["max"]))) for n in ("x", "h", "y")})}, one pass gives '
-              f'{({n: (float(num(qc[n]["min"])), float(num(qc[n]["max"]))) for n in ("x", "h", "y")})}')
+              f'resumed calibration gives {({n: (float(num(qb[n]["min"])), float(num(qb[n]["max"]))) for n in ("x", "h", "y", "xi", "yi")})}, one pass gives '
+              f'{({n: (float(num(qc[n]["min"])), float(num(qc[n]["max"]))) for n in ("x", "h", "y", "xi", "yi")})}')
     unchanged = set(first) == set(snapshot) and all(first[n] == snapshot[n] or (isinstance(first[n], dict) and all(num(first[n][s]) == num(snapshot[n][s]) for s in first[n] if not isinstance(first[n][s], NdArr) or first[n][s].size == 1)) for n in first)
     ctx.check(R, unchanged, load.node, load, 'previous result after resuming', 'the calibration result that was passed in has been modified by the resumed calibration')
   else:
